@@ -98,6 +98,20 @@ func runC08(r *Runner, g *Gen, tier string) string {
 	for _, name := range []string{"PSelf", "SSelf", "MSelf", "PSelfA", "PSelfB", "SSelfHolder"} {
 		r.Do(L(A("buildself"), A(hxs(name))), true, "build.selfref")
 	}
+	// slices of slices of length-delimited elements under every option combination, directly, behind
+	// pointers, in fields, with and without the proto tag (regression: accepted under ProtoCompatibleArrays
+	// until the repair, and the inner slices ran together); the packed / byte forms beside them stay accepted
+	for _, cfg := range cfgs {
+		el := Struct(F("X", "1", B("bool")))
+		for _, inner := range []*TyDef{B("str"), el, {K: "time"}, Ptr(B("str")), named("MyStr"), Slice(B("uint8")), B("int"), B("f64"), B("uint8")} {
+			for _, t := range []*TyDef{Slice(Slice(inner)), Slice(Ptr(Slice(inner))), Ptr(Slice(Slice(inner))), Slice(Slice(Slice(inner))), Slice(Ptr(Ptr(Slice(inner))))} {
+				r.Do(codecOp("build", cfg, t, "", A("5")), true, "build.nested-slices")
+				r.Do(codecOp("build", cfg, Struct(F("A", "1", t)), "", A("5")), true, "build.nested-slices")
+				r.Do(codecOp("build", cfg, Struct(&FieldDef{Name: "A", Exported: true, Plenc: "1,proto", T: t}), "", A("5")), true, "build.nested-slices")
+				r.Do(codecOp("build", cfg, Struct(F("M", "1", Map(B("str"), t))), "", A("5")), true, "build.nested-slices")
+			}
+		}
+	}
 	// multi-step sequences on one instance: a recursive definition whose construction
 	// fails must leave nothing behind: every later request that involves it fails too
 	for ci, cfg := range cfgs {
